@@ -139,6 +139,14 @@ func c10r1(c *Ctx, id string) {
 			allInstrs(s.Fn, func(in ssa.Instruction) {
 				if st, isSt := in.(*ssa.Store); isSt && w.Origin(st.Addr) == "&recv."+fieldName && unwrap(st.Val) == x && dominatesInstr(st, s.Call) {
 					updated = true
+					// remembered ⇒ announced: once the value is recorded as the one in effect no path leaves the function
+					// without the publish (a validation that refuses it after the record makes the next repetition of
+					// the membership still in effect look like a change)
+					if returnsAvoiding(st, s.Call) {
+						c.Fail(id, "remembered-then-announced@"+fname(s.Fn), st.Pos(), "%s is assigned the new membership and the function can then return without announcing it: the record no longer is the membership in effect, and the next repetition of the one in effect is announced as a change", cmp)
+					} else {
+						c.OK(id, "remembered-then-announced@"+fname(s.Fn), st.Pos(), "every path from the record of the new membership to a return passes the publish")
+					}
 				}
 			})
 			if !updated && s.Fn.Signature.Recv() != nil {
@@ -1012,4 +1020,36 @@ func returnsCallOf(g, target *ssa.Function) bool {
 		}
 	})
 	return ok && n > 0
+}
+
+// returnsAvoiding: some path from (after) instruction from reaches a return without passing instruction avoid.
+func returnsAvoiding(from, avoid ssa.Instruction) bool {
+	seen := map[*ssa.BasicBlock]bool{}
+	var scan func(b *ssa.BasicBlock, start int) bool
+	scan = func(b *ssa.BasicBlock, start int) bool {
+		for _, in := range b.Instrs[start:] {
+			if in == avoid {
+				return false
+			}
+			if _, ok := in.(*ssa.Return); ok {
+				return true
+			}
+		}
+		for _, sb := range b.Succs {
+			if !seen[sb] {
+				seen[sb] = true
+				if scan(sb, 0) {
+					return true
+				}
+			}
+		}
+		return false
+	}
+	b := from.Block()
+	for i, in := range b.Instrs {
+		if in == from {
+			return scan(b, i+1)
+		}
+	}
+	return false
 }
